@@ -440,7 +440,9 @@ def shape_ex(hbf, text=None, gids=None, features=None, script=None, language=Non
         direction = direction or "ltr"
     if direction:
         buf.direction = direction
-    if script:
+    if script == "DFLT":
+        buf.script = "Zyyy"  # 'DFLT' is no script: left unset HarfBuzz would guess one from the text; Common selects DFLT
+    elif script:
         buf.set_script_from_ot_tag(script)
     if language:
         buf.set_language_from_ot_tag(language)
